@@ -130,9 +130,19 @@ func (d *dumper) walk(path string, v reflect.Value) {
 			return
 		}
 		if t.Elem().Kind() == reflect.Uint8 {
-			b := make([]byte, v.Len())
-			for i := range b {
-				b[i] = byte(v.Index(i).Uint())
+			var b []byte
+			if v.CanInterface() {
+				b = v.Bytes()
+			} else {
+				b = make([]byte, v.Len())
+				for i := range b {
+					b[i] = byte(v.Index(i).Uint())
+				}
+			}
+			if len(b) > 256 {
+				// long buffers (ammo with big bodies): length, checksum and both ends
+				d.emit(path, fmt.Sprintf("bytes len=%d fnv=%016x %q..%q", len(b), fnv64(b), b[:48], b[len(b)-48:]))
+				return
 			}
 			d.emit(path, fmt.Sprintf("bytes %q", b))
 			return
@@ -179,6 +189,14 @@ func (d *dumper) walk(path string, v reflect.Value) {
 	default:
 		d.emit(path, fmt.Sprintf("<%s>", v.Kind()))
 	}
+}
+
+func fnv64(b []byte) uint64 {
+	h := uint64(14695981039346656037)
+	for _, c := range b {
+		h = (h ^ uint64(c)) * 1099511628211
+	}
+	return h
 }
 
 func keyString(k reflect.Value) string {
